@@ -124,7 +124,12 @@ func c12Lattice(r *engine.Run) {
 			ops = append(ops, id.Polygon(p).AsGeometry())
 		}
 	}
-	ops = append(ops, geom.Geometry{}, geom.Polygon{}.AsGeometry())
+	ops = append(ops, geom.Geometry{}, geom.Polygon{}.AsGeometry(),
+		geom.NewMultiPoint([]geom.Point{geom.NewPointXY(1, 2), {}, geom.NewPointXY(2, 1)}).AsGeometry(),
+		geom.NewMultiPoint([]geom.Point{{}, geom.NewPointXY(2, 2)}).AsGeometry(),
+		geom.NewGeometryCollection([]geom.Geometry{geom.NewMultiPoint([]geom.Point{geom.NewPointXY(1, 1), {}}).AsGeometry(), geom.NewLineStringXY(1, 2, 2, 2).AsGeometry()}).AsGeometry(),
+		geom.NewMultiLineString([]geom.LineString{{}, geom.NewLineStringXY(1, 0, 2, 1)}).AsGeometry(),
+		geom.NewMultiPolygon([]geom.Polygon{{}, geom.NewPolygonXY([]float64{1, 1, 2, 1, 2, 2, 1, 1})}).AsGeometry())
 	m := len(ops)
 	done = r.Parallel(m*m, func(k int) {
 		c12Union(r, ops[k/m], ops[k%m])
